@@ -35,6 +35,22 @@ mod verif_c03_frame_decode {
         }
     }
 
+    /// byte-wise equality of two slices (explicit loop: no memcmp on the zero-length / dangling-pointer slices that
+    /// `Bytes::new()` hands out)
+    fn same_bytes(a: &[u8], b: &[u8]) -> bool {
+        if a.len() != b.len() {
+            return false;
+        }
+        let mut i = 0;
+        while i < a.len() {
+            if a[i] != b[i] {
+                return false;
+            }
+            i += 1;
+        }
+        true
+    }
+
     /// RFC 9000 Table 3 + RFC 9221 + the project's extension range: is `code` a frame type at all? (spec function)
     fn rfc_is_frame_type(code: u64) -> bool {
         code <= 0x1e || code == 0x30 || code == 0x31 || (0x3d7e90..=0x3d7e96).contains(&code)
@@ -463,7 +479,7 @@ mod verif_c03_frame_decode {
                     assert!(o + l <= crate::varint::VARINT_MAX, "C03.frame.crypto.ok_implies_end_within_2pow62");
                     assert!(d.suffix && d.consumed as u64 == (l1 + l2) as u64 + l, "C03.frame.crypto.ok_consumes_header_and_data");
                     assert!(
-                        matches!(&d.frame, Some(Frame::Crypto(f, data)) if f.offset() == o && f.len() == l && data[..] == input[l1 + l2..l1 + l2 + l as usize]),
+                        matches!(&d.frame, Some(Frame::Crypto(f, data)) if f.offset() == o && f.len() == l && same_bytes(&data[..], &input[l1 + l2..l1 + l2 + l as usize])),
                         "C03.frame.crypto.ok_value_and_data"
                     );
                 } else {
@@ -493,7 +509,7 @@ mod verif_c03_frame_decode {
         assert!(
             !d.ok || (d.suffix && d.consumed == n && matches!(&d.frame, Some(Frame::Stream(f, data))
                 if u64::from(f.stream_id()) == sid.unwrap().0 && f.offset() == 0 && f.len() == n - sid.unwrap().1 && f.is_fin() == (fin == Fin::Yes)
-                    && data[..] == input[sid.unwrap().1..])),
+                    && same_bytes(&data[..], &input[sid.unwrap().1..]))),
             "C03.frame.stream_08.ok_takes_the_rest_of_the_packet"
         );
 
@@ -522,7 +538,7 @@ mod verif_c03_frame_decode {
                 assert!(d.ok == (l <= (n - l1 - l2) as u64), "C03.frame.stream_0a.ok_iff_data_present");
                 assert!(
                     !d.ok || (d.suffix && d.consumed as u64 == (l1 + l2) as u64 + l && matches!(&d.frame, Some(Frame::Stream(f, data))
-                        if f.offset() == 0 && f.len() as u64 == l && data[..] == input[l1 + l2..l1 + l2 + l as usize])),
+                        if f.offset() == 0 && f.len() as u64 == l && same_bytes(&data[..], &input[l1 + l2..l1 + l2 + l as usize]))),
                     "C03.frame.stream_0a.ok_consumes_header_and_data"
                 );
                 kani::cover!(d.ok && l == 3, "C03.frame.stream_0a.reach_ok_with_data");
@@ -541,7 +557,7 @@ mod verif_c03_frame_decode {
                     assert!(d.ok == (o + l <= crate::varint::VARINT_MAX && l <= (n - hdr) as u64), "C03.frame.stream_0e.ok_iff_end_within_2pow62_and_data_present");
                     assert!(
                         !d.ok || (d.suffix && d.consumed as u64 == hdr as u64 + l && matches!(&d.frame, Some(Frame::Stream(f, data))
-                            if f.offset() == o && f.len() as u64 == l && data[..] == input[hdr..hdr + l as usize])),
+                            if f.offset() == o && f.len() as u64 == l && same_bytes(&data[..], &input[hdr..hdr + l as usize]))),
                         "C03.frame.stream_0e.ok_consumes_header_and_data"
                     );
                     kani::cover!(d.error && o + l > crate::varint::VARINT_MAX, "C03.frame.stream_0e.reach_end_beyond_2pow62");
@@ -561,7 +577,7 @@ mod verif_c03_frame_decode {
         let d = run(FrameType::Datagram(0), input);
         assert!(
             // (the remainder returned for 0x30 is a fresh empty slice, not a tail of the input: only its length counts)
-            d.ok && d.consumed == n && matches!(&d.frame, Some(Frame::Datagram(f, data)) if !f.encode_len() && f.len().into_u64() == n as u64 && data[..] == input[..]),
+            d.ok && d.consumed == n && matches!(&d.frame, Some(Frame::Datagram(f, data)) if !f.encode_len() && f.len().into_u64() == n as u64 && same_bytes(&data[..], &input[..])),
             "C03.frame.datagram_30.takes_the_rest_of_the_packet"
         );
         let d = run(FrameType::Datagram(1), input);
@@ -571,7 +587,7 @@ mod verif_c03_frame_decode {
                 assert!(d.ok == (l <= (n - l1) as u64), "C03.frame.datagram_31.ok_iff_data_present");
                 assert!(
                     !d.ok || (d.suffix && d.consumed as u64 == l1 as u64 + l && matches!(&d.frame, Some(Frame::Datagram(f, data))
-                        if f.encode_len() && f.len().into_u64() == l && data[..] == input[l1..l1 + l as usize])),
+                        if f.encode_len() && f.len().into_u64() == l && same_bytes(&data[..], &input[l1..l1 + l as usize]))),
                     "C03.frame.datagram_31.ok_consumes_length_and_data"
                 );
                 kani::cover!(d.ok && l == 4, "C03.frame.datagram_31.reach_ok_with_data");
@@ -594,7 +610,7 @@ mod verif_c03_frame_decode {
             Some((l, l1)) => {
                 assert!(d.ok == (l <= (n - l1) as u64), "C03.frame.new_token.ok_iff_token_present");
                 assert!(
-                    !d.ok || (d.suffix && d.consumed as u64 == l1 as u64 + l && matches!(&d.frame, Some(Frame::NewToken(f)) if f.token()[..] == input[l1..l1 + l as usize])),
+                    !d.ok || (d.suffix && d.consumed as u64 == l1 as u64 + l && matches!(&d.frame, Some(Frame::NewToken(f)) if same_bytes(f.token(), &input[l1..l1 + l as usize]))),
                     "C03.frame.new_token.ok_consumes_length_and_token"
                 );
                 kani::cover!(d.ok && l == 4, "C03.frame.new_token.reach_ok");
